@@ -31,8 +31,11 @@ pub fn run(rep: &Report) -> u64 {
         };
         rep.bound(&format!("c01.sweep.{}.max_len", cfg), json!(maxlen));
         sweep(rep, cfg, bin, maxlen, &mut l);
-        // (2)+(3) structured inputs with follow-ups
-        structured(rep, cfg, bin, &mut l);
+        // (2)+(3) structured inputs with follow-ups (quick tier: first configuration only; the
+        // `std` feature adds an Error impl and nothing to the decoding paths)
+        if first || rep.tier == Tier::Thorough {
+            structured(rep, cfg, bin, &mut l);
+        }
         // (4) ladders (the second configuration runs the doubling rungs only in the quick tier)
         ladders(rep, cfg, bin, first || rep.tier == Tier::Thorough, &mut l);
     }
